@@ -55,4 +55,4 @@ Print Assumptions C07_scriptpath_verifies.
 Example C07_toy : forall d t px py, 1 <= d < tn -> smul tp (point_add tp) d tG = Some (px, py) ->
   point_add tp (Some (px, if Z.even py then py else tp - py)) (smul tp (point_add tp) t tG)
   = smul tp (point_add tp) (((if Z.even py then d else tn - d) + t) mod tn) tG.
-Proof. exact (tweak_agrees tp tn (point_add tp) toy_lift tG toy_on toy_curve_laws). Qed.
+Proof. exact (tweak_agrees tp tn (point_add tp) (lift_x tp) tG toy_on toy_curve_laws). Qed.
